@@ -12,3 +12,5 @@ if [ ! -x $V/bin/python ] || ! $V/bin/python -c 'import z3, jsonschema' >/dev/nu
   PIP_NO_INDEX=1 $V/bin/pip install -q --no-index --find-links /opt/veriftools/wheels z3-solver jsonschema
 fi
 $V/bin/python -c 'import z3, jsonschema, circuitpython_nrf24l01, os; assert os.path.realpath(circuitpython_nrf24l01.__file__).startswith("/repo/"), circuitpython_nrf24l01.__file__; print("setup ok: z3", z3.get_version_string())'
+# differential self-test of the proxy operator semantics against real Python values (fails the set-up on a mismatch)
+PYTHONPATH="$(pwd)" $V/bin/python -m vsym.selftest
